@@ -2,17 +2,22 @@
 import ast, math, os, sys, warnings
 import common, extract
 
-LEAN_MODULE = "ESRVerif.Props.C19"
+LEAN_MODULE = ["ESRVerif.Props.C19", "ESRVerif.Props.C19b"]
 LEVEL = "other"
 LEVEL_TEXT = ("Partial. Lean theorems over a hand model of get_pred/clear_data and the regenerated formulas: the integration grid contains "
               "every data point, is strictly increasing and (for 1+z >= 1) starts at 1; the mask indexes each data point in the grid "
-              "(unsorted input, duplicates); the value selected for data point i is the composite trapezoid sum of 1/sqrt(H^2) from the "
-              "first grid point to that data point, exact when 1/sqrt(H^2) is piecewise linear on the grid; mu_i = 5 log10(zp1_i dL_i) + "
-              "5 log10(c/H0/10pc); after clear_data the next call rebuilds grid and mask from its own argument. NOT proved: the "
-              "quadrature error bound |trapezoid - integral| <= sum h^3 max|g''|/12 for smooth integrands and the correctness of "
-              "sympy.integrate on the analytic path; both are conformance-tested on the real code against scipy.integrate.quad.")
+              "(unsorted input, duplicates); the value selected for data point i is the composite trapezoid sum of G = 1/sqrt(H^2) from the "
+              "first grid point to that data point, exact when G is piecewise linear on the grid; for G twice continuously differentiable "
+              "on [1, 1+z_max] (in particular for H^2 C^2 and positive with the real square root) "
+              "|dL_i - integral_1^{zp1_i} G| <= sum_{j<k_i} zeta_j |g_{j+1}-g_j|^3 / 12 <= zeta/12 sum |g_{j+1}-g_j|^3 <= zeta h^2 (zp1_i - 1)/12 "
+              "with zeta_j, zeta bounds of |G''| on the j-th grid interval / on the hull and h = max((lo-1)/9, 1/25) a PROVED bound of the "
+              "steps of the grid built from the shipped constants (Mathlib trapezoidal_error_le_of_c2 on every grid interval, summed); "
+              "|delta mu| <= 5 E / (ln 10 min(dL, integral)); mu_i = 5 log10(zp1_i dL_i) + 5 log10(c/H0/10pc); after clear_data the next "
+              "call rebuilds grid and mask from its own argument. NOT proved: floating-point rounding, and the correctness of "
+              "sympy.integrate on the analytic path (conformance-tested on the real code against the numerical path and scipy.integrate.quad).")
 TECHNIQUE = ("Lean 4 proof on a hand model of the grid/mask/cumulative-trapezoid/cache logic + formulas regenerated from source; "
-             "model-code correspondence on random redshift samples; independent quad oracle with a computed trapezoid error bound")
+             "Mathlib trapezoid error bound summed over the non-uniform grid; model-code correspondence on random redshift samples; "
+             "independent quad oracle that checks the real get_pred against exactly the three bounds of the theorems on the real data_x")
 RULE = ("one evaluation = one get_pred call on the real code compared with the model (correspondence) or with scipy.integrate.quad (oracle); "
         "distinct = (function string, parameter vector, sample) ; non-trivial = sample with >= 2 distinct redshifts; samples of 1-200 points, "
         "sorted / reversed / shuffled, with duplicates and values coinciding with auxiliary grid points")
@@ -20,13 +25,18 @@ EXPLANATION = LEVEL_TEXT
 TRUSTED = ["hand model ESRVerif/Model/Panth.lean of get_pred/clear_data (tied by correspondence: grid bits, mask, mu)",
            "harness/extractors/panth.py (formulas, constants, unit algebra for mu_const)",
            "numpy.linspace/unique/where/log10 and scipy cumulative_trapezoid semantics (conformance-sampled against the model)",
-           "scipy.integrate.quad as the reference integral; |g''| maximised on 5 sample points per grid interval with a 5% margin",
+           "scipy.integrate.quad as the reference integral",
+           "zeta_j: |G''| (closed form from hand-written H^2, H^2', H^2'', cross-checked against sympy's second derivative of the "
+           "expression the real run_sympify returns) maximised on 9 points per grid interval (end points included) times 1.05",
            "pointwise evaluation of the lambdified H^2 (eq_numpy)"]
 ASSUMPTIONS = ["1+z >= 1 and NaN-free finite redshifts", "H^2 positive, twice continuously differentiable on [1, 1+z_max]",
                "exact real arithmetic in the theorems (rounding not modelled)",
                "instances are built with object.__new__ and the constructor's own attribute assignments (the covariance files of this "
                "snapshot are empty and pandas>=3 rejects delim_whitespace, so __init__ cannot run)",
-               "trapezoid error bound and sympy.integrate are tested, not proved"]
+               "the run-time oracle's zeta_j / zeta are not interval-arithmetic enclosures of max|G''|: closed-form G'' sampled on a mesh of 9 "
+               "points per grid interval (spacing <= 0.005 on the shipped grid) with a 5% safety factor; the run-time bound is the theorem's "
+               "expression evaluated with these zeta on the grid the real code built (data_x) plus the slack 1e-12*|I| + 2*(quad's own error estimate)",
+               "sympy.integrate is tested, not proved"]
 # tables whose committed version may stand in as a hand-written model when the translator cannot read the source;
 # value = the correspondence that then ties it to the code (common.prove / common.decide)
 FALLBACK = {'Panth': 'real get_pred grid, mask, cumulative sums and mu vs the Lean model (bit patterns)'}
@@ -459,21 +469,84 @@ def _g2(fam, x, p):
     return 0.75 * h ** -2.5 * h1 ** 2 - 0.5 * h ** -1.5 * h2
 
 
+def _corr_g2(ctx, n):
+    """zeta of the quadrature bound: the hand-written G'' (from the families' H^2, H^2', H^2'') against sympy's second derivative
+    of 1/sqrt(eq), eq being the expression the REAL run_sympify returns for the family's function string."""
+    import numpy as np, sympy
+    from esr.fitting.sympy_symbols import x
+    r = ctx.rng
+    probe = new_instance(ctx)
+    ops = bad = 0
+    for fam in _families():
+        fstr, npar = fam[0], fam[1]
+        _, _, eq = lambdify(ctx, probe, fstr, npar, False)
+        # 1+z > 0 and every family samples positive parameters: Abs/sign (e.g. sqrt((a0+x)^2)) reduce before differentiating
+        xp = sympy.Symbol("xp", positive=True)
+        ap = [sympy.Symbol("ap%d" % i, positive=True) for i in range(npar)]
+        sub = {x: xp}
+        for sym in eq.free_symbols:
+            if sym.name.startswith("a") and sym.name[1:].isdigit() and int(sym.name[1:]) < npar:
+                sub[sym] = ap[int(sym.name[1:])]
+        d2 = sympy.diff(1 / sympy.sqrt(eq.subs(sub)), xp, 2)
+        args = xp if npar == 0 else [xp] + ap
+        f2 = sympy.lambdify(args, d2, modules=["numpy"])
+        for _ in range(n):
+            p = fam[2](r)
+            xs = np.array([r.uniform(1.0, 3.4) for _ in range(16)])
+            want = np.broadcast_to(np.asarray(f2(xs, *p) if npar else f2(xs), dtype=float), xs.shape)
+            got = np.broadcast_to(np.asarray(_g2(fam, xs, p), dtype=float), xs.shape)
+            h, h1, h2 = fam[3](xs, p), fam[4](xs, p), fam[5](xs, p)
+            scale = 0.75 * h ** -2.5 * h1 ** 2 + 0.5 * h ** -1.5 * np.abs(h2)
+            ops += 1
+            if not np.all(np.abs(want - got) <= 1e-9 * scale + 1e-300):
+                bad += 1
+                if bad <= 3:
+                    k = int(np.argmax(np.abs(want - got)))
+                    ctx.disagree("corr:g2", "%s a=%r x=%r: hand-written G''=%r, sympy d2/dx2 (1/sqrt(%s))=%r" % (fstr, p, float(xs[k]), float(got[k]), eq, float(want[k])))
+        ctx.case(("g2", fstr), nontrivial=True, n=n)
+    return ops, bad
+
+
+MESH = 9                 # points per grid interval (end points included) on which |G''| is maximised
+SAFETY = 1.05            # factor on the sampled maximum
+STEP_DIV, STEP_MIN = 9.0, 1.0 / 25.0      # ESR.C19.grid_step_le_shipped:  h = max((lo - 1)/9, 1/25)
+
+
 def _reference(fam, params, zp1, data_x):
-    """per data point: integral of 1/sqrt(H^2) from 1 to zp1_i by quad, and the trapezoid error bound of the code's grid
-    refined by the end points {1, zp1_i}:  sum_k h_k^3/12 * max_[x_k,x_k+1] |g''|   (<= (b-a) h^2 max|g''| / 12)."""
+    """Per data point: the integral of G = 1/sqrt(H^2) from 1 to zp1_i by quad, and the three bounds of Props/C19b.lean
+    evaluated on the grid g = data_x THE REAL CODE BUILT, k_i = position of zp1_i in it:
+
+      tight  sum_{j<k_i} zeta_j |g_{j+1}-g_j|^3 / 12        ESR.C19.trapezoid_error_le_per_interval_real
+      zeta   zeta/12 * sum_{j<k_i} |g_{j+1}-g_j|^3            ESR.C19.trapezoid_error_le_real
+      step   zeta * h^2 * (zp1_i - 1) / 12                    ESR.C19.dL_error_le_shipped_real, h = max((lo-1)/9, 1/25)
+
+    zeta_j = SAFETY * max |G''| on MESH points of [g_j, g_{j+1}],  zeta = max_j zeta_j over the hull [1, max zp1].
+    The theorems' hypotheses on the grid (strictly increasing, first point 1, every data point on it) are facts about the
+    real data_x here; where one of them fails the bounds are formed, exactly as before these theorems existed, on the
+    refinement {1} u zp1 u (data_x points between) - the grid a correct get_pred would have had at least."""
     import numpy as np, scipy.integrate
     g = lambda t: 1.0 / math.sqrt(float(fam[3](t, params)))
     uniq = sorted(set(zp1))
-    pts = sorted(set([1.0] + uniq + [float(v) for v in (data_x if data_x is not None else []) if 1.0 < float(v) < uniq[-1]]))
+    dx = [] if data_x is None else [float(v) for v in np.atleast_1d(data_x)]
+    posx = {v: i for i, v in enumerate(dx)}
+    hyp = bool(dx) and dx[0] == 1.0 and all(p < q for p, q in zip(dx, dx[1:])) and all(v in posx for v in uniq)
+    if hyp:
+        pts = dx[:posx[uniq[-1]] + 1]
+    else:
+        pts = sorted(set([1.0] + uniq + [v for v in dx if 1.0 < v < uniq[-1]]))
     xs = np.array(pts)
     hk = np.diff(xs)
+    h = max((uniq[0] - 1.0) / STEP_DIV, STEP_MIN)
     if len(hk):
-        t = xs[:-1, None] + hk[:, None] * np.linspace(0, 1, 5)[None, :]
-        mk = 1.05 * np.max(np.abs(_g2(fam, t, params)), axis=1)
+        t = xs[:-1, None] + hk[:, None] * np.linspace(0, 1, MESH)[None, :]
+        mk = SAFETY * np.max(np.abs(_g2(fam, t, params)), axis=1)
+        zeta = float(np.max(mk))
         cb = np.concatenate(([0.0], np.cumsum(hk ** 3 / 12.0 * mk)))
+        cz = np.concatenate(([0.0], zeta / 12.0 * np.cumsum(np.abs(hk) ** 3)))
+        maxstep = float(np.max(hk))
     else:
-        cb = np.array([0.0])
+        cb = cz = np.array([0.0])
+        zeta, maxstep = 0.0, 0.0
     pos = {v: i for i, v in enumerate(pts)}
     # integral piecewise between consecutive distinct data points
     I, E = {}, {}
@@ -487,7 +560,10 @@ def _reference(fam, params, zp1, data_x):
             acc -= val; err += e
         prev = v
         I[v], E[v] = acc, err
-    return [I[v] for v in zp1], [float(cb[pos[v]]) for v in zp1], [E[v] for v in zp1]
+    return dict(I=[I[v] for v in zp1], E=[E[v] for v in zp1],
+                tight=[float(cb[pos[v]]) for v in zp1], zeta=[float(cz[pos[v]]) for v in zp1],
+                step=[zeta * h * h * (v - 1.0) / 12.0 for v in zp1],
+                k=[pos[v] for v in zp1], zeta_value=zeta, h=h, maxstep=maxstep, theorem_grid=hyp, npts=len(pts))
 
 
 def _dl_from_mu(mu, zp1, mu_const):
@@ -522,25 +598,58 @@ def check_case(ctx, fam_index, params, zp1, zp1_b=None, record=True):
         if mu.shape != (len(z),):
             fail(tag + "shape", "get_pred returns shape %r for %d redshifts (%s)" % (mu.shape, len(z), fstr))
             return None
-        I, B, E = _reference(fam, params, z, inst.data_x)
+        ref = _reference(fam, params, z, inst.data_x)
+        I, B, E = ref["I"], ref["tight"], ref["E"]
+        st = ctx.extra.setdefault("quadrature_bound", dict(
+            theorems=dict(tight="ESR.C19.trapezoid_error_le_per_interval_real", zeta="ESR.C19.trapezoid_error_le_real",
+                          step="ESR.C19.dL_error_le_shipped_real", grid_step="ESR.C19.grid_step_le_shipped"),
+            ratio_is="max(0, |dL - quad| - (1e-12*|quad| + 2*quad_error_estimate)) / bound, over data points with bound > 0",
+            cases_compared=0, points_compared=0, cases_on_theorem_grid=0, max_ratio=dict(tight=0.0, zeta=0.0, step=0.0),
+            max_step_over_h=0.0, mesh_points_per_interval=MESH, safety_factor=SAFETY))
+        st["cases_compared"] += 1
+        st["points_compared"] += len(z)
+        st["cases_on_theorem_grid"] += int(ref["theorem_grid"])
+        if ref["h"] > 0:
+            st["max_step_over_h"] = max(st["max_step_over_h"], round(ref["maxstep"] / ref["h"], 6))
+        if ref["maxstep"] > ref["h"] * (1 + 1e-12):
+            ctx.disagree("corr:grid-step", "%s, %d redshifts: data_x has a step %r below max(zp1) but grid_step_le_shipped proves <= %r "
+                         "for the shipped constants" % (fstr, len(z), ref["maxstep"], ref["h"]))
         worst = None
+        worst_step = None
         ratio = 0.0
         for i in range(len(z)):
             dl = float(_dl_from_mu(mu[i], z[i], inst.mu_const))
-            tol = B[i] + 1e-12 * abs(I[i]) + 2 * E[i]
+            slack = 1e-12 * abs(I[i]) + 2 * E[i]
+            tol = B[i] + slack
             d = abs(dl - I[i])
             if not (d <= tol):
                 if worst is None or d / tol > worst[0]:
                     worst = (d / tol, i, dl, I[i], tol)
-            elif B[i] > 0:
+            tol_s = ref["step"][i] * (1 + 1e-9) + slack
+            if not (d <= tol_s):
+                if worst_step is None or d / tol_s > worst_step[0]:
+                    worst_step = (d / tol_s, i, dl, I[i], tol_s)
+            over = max(0.0, d - slack) if d == d else float("inf")
+            for name in ("tight", "zeta", "step"):
+                if ref[name][i] > 0:
+                    st["max_ratio"][name] = max(st["max_ratio"][name], round(over / ref[name][i], 4))
+            if d <= tol and B[i] > 0:
                 ratio = max(ratio, d / B[i])
         if worst is not None:
             _, i, dl, Ii, tol = worst
             fail(tag + "trapz-vs-quad",
                  "%s a=%r: prediction for 1+z=%r (index %d of %d) is mu=%r, i.e. integral %r, but quad gives %r "
-                 "(mu_ref=%r); difference %.3e exceeds the trapezoid error bound of the grid %.3e"
+                 "(mu_ref=%r); difference %.3e exceeds the trapezoid error bound of the grid %.3e "
+                 "(sum_{j<%d} zeta_j |g_{j+1}-g_j|^3/12 on data_x, trapezoid_error_le_per_interval_real)"
                  % (fstr, list(params), z[i], i, len(z), float(mu[i]), dl, Ii,
-                    5 * math.log10(z[i] * Ii) + inst.mu_const if Ii > 0 else float("-inf"), abs(dl - Ii), tol))
+                    5 * math.log10(z[i] * Ii) + inst.mu_const if Ii > 0 else float("-inf"), abs(dl - Ii), tol, ref["k"][i]))
+        elif worst_step is not None:
+            _, i, dl, Ii, tol = worst_step
+            fail(tag + "trapz-vs-quad-shipped-step",
+                 "%s a=%r: prediction for 1+z=%r (index %d of %d) is mu=%r, i.e. integral %r, but quad gives %r; difference %.3e "
+                 "exceeds zeta h^2 (zp1-1)/12 = %.3e with zeta=%.4g, h=max((lo-1)/9, 1/25)=%.4g (dL_error_le_shipped_real); "
+                 "largest step of data_x below max(zp1): %.4g"
+                 % (fstr, list(params), z[i], i, len(z), float(mu[i]), dl, Ii, abs(dl - Ii), tol, ref["zeta_value"], ref["h"], ref["maxstep"]))
         ctx.extra["max_error_over_bound"] = max(ctx.extra.get("max_error_over_bound", 0.0), round(ratio, 4))
         return mu, I, B, E
 
@@ -634,7 +743,8 @@ def run(ctx):
     P = lk.PanthLikelihood
     with LineCov([P.get_pred, P.clear_data, P.run_sympify]) as cov:
         for name, fn, size in (("constants", _corr_shipped, None), ("linspace", _corr_linspace, 3000 if deep else 400),
-                               ("cumulative_trapezoid", _corr_cumtrapz, 600 if deep else 80), ("get_pred", _corr_run, 1500 if deep else 160)):
+                               ("cumulative_trapezoid", _corr_cumtrapz, 600 if deep else 80), ("get_pred", _corr_run, 1500 if deep else 160),
+                               ("G''_vs_sympy", _corr_g2, 40 if deep else 8)):
             try:
                 res[name] = fn(ctx) if size is None else fn(ctx, size)
             except Exception as e:
@@ -646,8 +756,12 @@ def run(ctx):
     ctx.extra["corr_discharged"] = sum(1 for v in res.values() if v[1] == 0)
     ctx.extra["correspondence"] = {k: dict(ops=v[0], mismatches=v[1]) for k, v in res.items()}
     ctx.extra["exhaustive"] = False
-    ctx.extra["not_proved"] = ["|trapezoid - integral| <= sum h^3 max|g''|/12 (tested against scipy.integrate.quad)",
+    ctx.extra["not_proved"] = ["floating-point rounding of the trapezoid sums (the theorems are over the reals)",
                                "sympy.integrate on the analytic path (tested against the numerical path)"]
+    qb = ctx.extra.get("quadrature_bound")
+    if qb:
+        ctx.extra["max_error_over_theorem_bound"] = max(qb["max_ratio"].values())
+        ctx.extra["quad_cases_compared"] = qb["cases_compared"]
     ctx.extra["families"] = [f[0] for f in _families()]
 
 
